@@ -293,6 +293,13 @@ func (s *Solver) Check(extra *Term, wantModel bool) (string, *Model) {
 	}
 	t0 := time.Now()
 	s.stats.Queries++
+	// The query frame (push / assert extra / pop) is private to this solver:
+	// mirroring it made the cross-checking solver re-process its whole
+	// assertion stack on every feasibility query of the main solver.
+	if sh := s.shadow; sh != nil {
+		s.shadow = nil
+		defer func() { s.shadow = sh }()
+	}
 	s.send("(push 1)")
 	if extra != nil && extra.op != "true" {
 		s.send("(assert " + extra.ref() + ")")
